@@ -51,6 +51,9 @@ ATMOSPHERES = [(0.1, 0.2, 25.0), (0.5, 0.1, 10.0), (0.05, 0.2, 100.0), (0.25, 0.
 ATMOSPHERES_MORE = [(1.0, 0.1, 2.0), (0.02, 0.3, 50.0), (0.1, 1.0, 1000.0)]
 
 
+R0_EXTREMES = [(0.1, 1000.0, 10.0), (0.25, 400.0, 25.0), (0.1, 30.0, 5.0), (0.1, 0.002, 25.0), (0.05, 1e-4, 100.0)]
+
+
 def _factors(tier):
     return [1, 2, 4] if tier == "quick" else [1, 2, 3, 4]
 
@@ -77,7 +80,7 @@ def BOUNDS(tier):
             "fried_requested_nx": _fried_sizes(tier),
             "fried_internal_nx": sorted(set(geom.allowed_size(n)[0] for n in _fried_sizes(tier))),
             "fried_stencil_length_factor": _factors(tier),
-            "atmospheres(pixel_scale,r0,L0)": _atm(tier),
+            "atmospheres(pixel_scale,r0,L0)": _atm(tier), "r0_extremes(pixel_scale,r0,L0)": R0_EXTREMES,
             "tolerances": {"covariance_identities_rel_B0": TOL_COV, "algebraic": TOL_ALG}}
 
 
@@ -95,6 +98,14 @@ def cases(tier):
                            {"variant": "fried", "nx": nx, "depth": f, "atm": atm}, False)
 
 
+    # the strength of the turbulence only scales the matrices (A does not depend on r0, B ~ r0^(-5/6)): very weak and
+    # very strong turbulence relative to the outer scale, where an absolute regulariser or threshold would show
+    for atm in R0_EXTREMES:
+        tag = "ps=%g,r0=%g,L0=%g" % atm
+        for nx, nc in ((4, 2), (7, 2), (7, 3)):
+            yield Case("vk:nx=%d:nc=%d:%s" % (nx, nc, tag), {"variant": "vk", "nx": nx, "depth": nc, "atm": atm}, True)
+        for nx, f in ((5, 2), (9, 4)):
+            yield Case("fried:nx=%d:f=%d:%s" % (nx, f, tag), {"variant": "fried", "nx": nx, "depth": f, "atm": atm}, True)
     for nx, nc in (((350, 2),) if tier == "quick" else ((350, 2), (520, 1), (300, 3))):
         atm = (0.1, 0.2, 25.0)
         yield Case("vk:big:nx=%d:nc=%d" % (nx, nc), {"variant": "vk", "nx": nx, "depth": nc, "atm": atm, "big": True}, True)
